@@ -785,7 +785,22 @@ def search_debug(drv, rng, budget):
             inner = "jet::eq_8(a, %d)" % 201
             t = "assert!(%s)" % inner
             calls += [(inner, "Jet"), (t, "Assert")]
-            lines.append("    %s;" % t)
+            if rng.random() < 0.5:
+                # a failing call as the argument of a dbg! in statement position: must fail in BOTH builds
+                calls.append((t, "Debug"))
+                lines.append("    dbg!(%s);" % t)
+            else:
+                lines.append("    %s;" % t)
+        if rng.random() < 0.4:
+            # non-ASCII text is legal in comments; columns count characters, not bytes
+            k2 = rng.randrange(1, len(lines))
+            lines[k2] = "    /* é ≤ ü */" + lines[k2].lstrip(" ").join([" ", ""])
+        if it == 7:
+            # many call sites: every one keeps its own marker
+            for q in range(300):
+                t = "jet::add_8(a, %d)" % (q % 200)
+                t = t if q < 200 else "jet::add_8(a,  %d)" % (q - 200)
+                calls.append((t, "Jet")); lines.append("    let y%d: (bool, u8) = %s;" % (q, t))
         src = "fn main() {\n" + "\n".join(lines) + "\n}\n"
         got = drv.call("debug_info", hx(src), hx(""))
         bad = None
@@ -829,6 +844,14 @@ def search_witness(drv, rng, budget):
             v = rng.randrange(2 ** bits)
             body.append("    assert!(jet::eq_%d(witness::%s, %d));" % (bits, nm, v))
             wit.append((nm, "u%d" % bits, str(v)))
+        # a declared witness whose value is bound but never inspected: its (well-typed) value must not disturb anything
+        if rng.random() < 0.5:
+            uty, uval = rng.choice([("u8", "200"), ("(u8, u16)", "(1, 2)"), ("List<u16, 4>", "list![3, 4]"), ("Either<u8, u32>", "Right(7)"), ("[u8; 3]", "[1, 2, 3]")])
+            form = rng.randrange(3)
+            if form == 0: body.insert(0, "    let unused: %s = witness::U;" % uty)
+            elif form == 1: body.append("    let (unused, two): (%s, u8) = (witness::U, 2);\n    assert!(jet::eq_8(two, 2));" % uty)
+            else: body.append("    let two: u8 = { let unused: %s = witness::U; 2 };\n    assert!(jet::eq_8(two, 2));" % uty)
+            wit.append(("U", uty, uval))
         # an unused, undeclared name of arbitrary type is ignored
         extra = [("ZZ", "(u8, bool)", "(1, true)")] if rng.random() < 0.5 else []
         src = "fn main() {\n" + "\n".join(body) + "\n}\n"
@@ -839,13 +862,29 @@ def search_witness(drv, rng, budget):
         # same values, one declared name at a different type: must be rejected by satisfy (not reach the Bit Machine)
         j = rng.randrange(k)
         nm, ty, val = wit[j]
-        other = rng.choice([t for t in ("u8", "u16", "u32", "u64", "(u8, u8)", "bool") if t != ty])
-        oval = {"bool": "true", "(u8, u8)": "(1, 2)"}.get(other, "1")
+        wit = [w for w in wit if w[0] != "U"] + [w for w in wit if w[0] == "U"]
+        same_layout = {"u16": ("(u8, u8)", "(1, 2)"), "u32": ("(u16, u16)", "(1, 2)"), "u64": ("[u32; 2]", "[1, 2]"), "u8": ("(u4, u4)", "(1, 2)")}
+        if rng.random() < 0.5:
+            other, oval = same_layout[ty]          # another type with the SAME bit layout must be rejected too
+        else:
+            other = rng.choice([t for t in ("u8", "u16", "u32", "u64", "(u8, u8)", "bool") if t != ty])
+            oval = {"bool": "true", "(u8, u8)": "(1, 2)"}.get(other, "1")
         wit2 = list(wit); wit2[j] = (nm, other, oval)
         mod2 = "mod witness {\n" + "\n".join("    const %s: %s = %s;" % w for w in wit2 + extra) + "\n}"
-        got = drv.call("run", hx(src), hx(""), hx(mod2), "0")
-        if not got.startswith("satisfy-err"):
-            return {"call": "satisfy with an ill-typed witness", "input": {"program": src, "witness": mod2}, "op": ["run", hx(src), hx(""), hx(mod2), "0"], "expected": "satisfy-err", "observed": got}
+        for op in ("run", "run_env"):
+            got = drv.call(op, hx(src), hx(""), hx(mod2), "0")
+            if not got.startswith("satisfy-err"):
+                return {"call": "satisfy%s with an ill-typed witness" % ("_with_env(Some(env))" if op == "run_env" else ""), "input": {"program": src, "witness": mod2},
+                        "op": [op, hx(src), hx(""), hx(mod2), "0"], "expected": "satisfy-err", "observed": got}
+        got = drv.call("run_env", hx(src), hx(""), hx(mod), "0")
+        if got != "ok":
+            return {"call": "satisfy_with_env(Some(env)) with well-typed witnesses", "input": {"program": src, "witness": mod}, "op": ["run_env", hx(src), hx(""), hx(mod), "0"], "expected": "ok", "observed": got}
+        if it % 10 == 0:
+            many = [("N%d" % q, "u8", str(q)) for q in range(40)]
+            mod4 = "mod witness {\n" + "\n".join("    const %s: %s = %s;" % w for w in wit2 + many) + "\n}"
+            got = drv.call("run", hx(src), hx(""), hx(mod4), "0")
+            if not got.startswith("satisfy-err"):
+                return {"call": "satisfy with an ill-typed witness among 40 unused names", "input": {"program": src, "witness": mod4}, "op": ["run", hx(src), hx(""), hx(mod4), "0"], "expected": "satisfy-err", "observed": got}
         # a wrong VALUE of the right type must reach the program and make the assertion fail (delivery to the right name)
         if k >= 2:
             a, b = rng.sample(range(k), 2)
@@ -872,11 +911,23 @@ def search_template(drv, rng, budget):
         body = "\n".join("    assert!(jet::eq_%d(param::%s, %d));" % (b, n, v) for n, b, v in ps)
         # a parameter may be used more than once, at the same type
         n0, b0, v0 = ps[0]
-        body += "\n    let again: u%d = param::%s;\n    assert!(jet::eq_%d(again, %d));" % (b0, n0, b0, v0)
-        src = "fn main() {\n" + body + "\n}\n"
+        body += "\n    let pad: u8 = 3;\n    let again: u%d = param::%s;\n    assert!(jet::eq_%d(again, %d));" % (b0, n0, b0, v0)
+        helper = ""
+        if rng.random() < 0.6:
+            # a parameter used (possibly only) inside a helper function
+            nh, bh, vh = ps[-1]
+            helper = "fn helper(x: u8) -> u%d { let y: u8 = x; param::%s }\n" % (bh, nh)
+            body += "\n    assert!(jet::eq_%d(helper(1), %d));" % (bh, vh)
+            if rng.random() < 0.5 and len(ps) > 1:
+                body = "\n".join(l for l in body.split("\n") if "param::%s," % nh not in l)    # ... and nowhere in main
+        src = helper + "fn main() {\n" + body + "\n}\n"
+        want = ";".join(sorted("%s:u%d" % (n, b) for n, b, v in ps))
+        got = drv.call("params", hx(src))
+        if got != "ok " + want:
+            return {"call": "TemplateProgram::parameters()", "input": {"program": src}, "op": ["params", hx(src)], "expected": "ok " + want, "observed": got}
         def mod(items): return "mod param {\n" + "\n".join("    const %s: %s = %s;" % it for it in items) + "\n}"
         args = [(n, "u%d" % b, str(v)) for n, b, v in ps]
-        extra = [("UNUSED", "bool", "true")]
+        extra = [("UNUSED", "bool", "true")] + ([("X%d" % q, "u8", "1") for q in range(6)] if rng.random() < 0.5 else [])
         got = drv.call("run", hx(src), hx(mod(args + extra)), hx(""), "0")
         if got != "ok":
             return {"call": "instantiate with matching arguments (+ an extra one)", "input": {"program": src, "arguments": mod(args + extra)}, "op": ["run", hx(src), hx(mod(args + extra)), hx(""), "0"], "expected": "ok", "observed": got}
@@ -894,6 +945,8 @@ def search_template(drv, rng, budget):
         n, ty, v = args[j]
         other = rng.choice([t for t in ("u8", "u16", "u32", "u64") if t != ty])
         wrong = list(args); wrong[j] = (n, other, "1")
+        if rng.random() < 0.4:
+            wrong[j] = {"u16": (n, "(u8, u8)", "(1, 2)"), "u32": (n, "(u16, u16)", "(1, 2)"), "u64": (n, "[u32; 2]", "[1, 2]"), "u8": (n, "(u4, u4)", "(1, 2)")}[ty]
         got = drv.call("run", hx(src), hx(mod(wrong)), hx(""), "0")
         if not got.startswith("compile-err"):
             return {"call": "instantiate with an argument of another type", "input": {"program": src, "arguments": mod(wrong)}, "op": ["run", hx(src), hx(mod(wrong)), hx(""), "0"], "expected": "compile-err", "observed": got}
@@ -936,6 +989,12 @@ def search_error_render(drv, rng, budget):
         lines = ["fn main() {"] + [ind() + b for b in body] + ["}"]
         if rng.random() < 0.3:
             lines.insert(0, "// en-tête: ñ")
+        if it % 6 == 5:
+            # an error whose span covers many lines: main with a parameter / a result, or no main at all
+            body = [rng.choice(good) for _ in range(rng.randint(6, 14))]
+            body = ["let a: u8 = 1;"] + body
+            head = rng.choice(["fn main(x: u8) {", "fn main() -> u8 {", "fn notmain() {"])
+            lines = [head] + [ind() + b for b in body] + ["}"]
         nl = rng.choice(["\n", "\r\n"])
         src = nl.join(lines) + (nl if rng.random() < 0.7 else "")
         got = drv.call("render_err", hx(src))
@@ -948,11 +1007,17 @@ def search_error_render(drv, rng, budget):
         mlines = msg.split("\n")
         quoted = []
         bad_reason = None
-        for ml in mlines:
+        for idx, ml in enumerate(mlines):
             m = re.match(r"^ *(\d+) \| (.*)$", ml) or re.match(r"^ *(\d+) \|()$", ml)
             if m:
                 quoted.append((int(m.group(1)), m.group(2) if m.lastindex >= 2 else ""))
-        if not quoted:
+            elif 0 < idx < len(mlines) - 1:
+                bad_reason = "every row between the first gutter row and the underline row is a quoted source line (found %r)" % ml
+        if bad_reason:
+            pass
+        elif not re.match(r"^ *\|$", mlines[0]):
+            bad_reason = "the message starts with an empty gutter row"
+        elif not quoted:
             bad_reason = "the message quotes at least one source line"
         else:
             nums = [q[0] for q in quoted]
@@ -1038,6 +1103,51 @@ def mutate_type(rng, t):
         if c == 1 and t.args[1] > 0: return Ty("array", t.args[0], t.args[1] - 1)
         return Ty("array", mutate_type(rng, t.args[0]), t.args[1])
     return Ty("uint", 32) if not (t.kind == "uint" and t.args[0] == 32) else Ty("bool")
+
+
+@searcher("static-rules/")
+def search_static_rules(drv, rng, budget):
+    """a fixed table of small programs around single static rules (list literal length vs bound, fold / for_while function
+    signatures, witness outside main, witness reuse, main signature, undefined names, argument counts): each is accepted or
+    rejected by the front end as the rule says; rejected ones must be rejected by the front end, not by a later internal error"""
+    cases = []
+    for b in (2, 4, 8, 16):
+        for n in (0, 1, b - 2, b - 1, b, b + 1):
+            if n < 0: continue
+            lit = "list![%s]" % ", ".join(str(i % 200) for i in range(n))
+            cases.append(("fn main() { let l: List<u8, %d> = %s; }" % (b, lit), n < b))
+    fw = "fn main() { let r: Either<u8, %s> = for_while::<step>(%s, ()); }"
+    cases += [
+        ("fn step(acc: u16, ctx: (), i: u8) -> Either<u8, u16> { Right(acc) }\n" + fw % ("u16", "7"), True),
+        ("fn step(acc: u16, ctx: (), i: u8) -> Either<u8, (u8, u8)> { Right((1, 2)) }\n" + fw % ("(u8, u8)", "7"), False),
+        ("fn step(acc: u16, ctx: (), i: u8) -> Either<u8, u32> { Right(1) }\n" + fw % ("u32", "7"), False),
+        ("fn step(acc: u16, ctx: (), i: u32) -> Either<u8, u16> { Right(acc) }\n" + fw % ("u16", "7"), False),
+        ("fn step(acc: u16, i: u8) -> Either<u8, u16> { Right(acc) }\n" + fw % ("u16", "7"), False),
+        ("fn f(e: u8, acc: u16) -> u16 { acc }\nfn main() { let l: List<u8, 4> = list![1]; let r: u16 = fold::<f, 4>(l, 0); }", True),
+        ("fn f(e: u8, acc: u16) -> u32 { 1 }\nfn main() { let l: List<u8, 4> = list![1]; let r: u32 = fold::<f, 4>(l, 0); }", False),
+        ("fn f(e: u16, acc: u16) -> u16 { acc }\nfn main() { let l: List<u8, 4> = list![1]; let r: u16 = fold::<f, 4>(l, 0); }", False),
+        ("fn f(e: u8, acc: u16) -> u16 { acc }\nfn main() { let l: List<u8, 8> = list![1]; let r: u16 = fold::<f, 4>(l, 0); }", False),
+        ("fn g() -> u8 { witness::A }\nfn main() { let x: u8 = g(); }", False),
+        ("fn main() { let x: u8 = witness::A; let y: u8 = witness::A; }", False),
+        ("fn main() { let x: u8 = witness::A; let y: u8 = witness::B; }", True),
+        ("fn main(x: u8) { }", False), ("fn main() -> u8 { 1 }", False), ("fn other() { }", False),
+        ("fn main() { } fn main() { }", False),
+        ("fn main() { let x: u8 = y; }", False), ("fn main() { let x: u8 = f(); }", False), ("fn main() { let x: T = 1; }", False),
+        ("type T = u8; fn main() { let x: T = 1; }", True),
+        ("fn f(a: u8) -> u8 { a } fn main() { let x: u8 = f(1, 2); }", False), ("fn f(a: u8) -> u8 { a } fn main() { let x: u8 = f(); }", False),
+        ("fn f(a: u8) -> u8 { a } fn main() { let x: u8 = f(1); }", True),
+        ("fn main() { let x: u8 = 256; }", False), ("fn main() { let x: u8 = 255; }", True),
+        ("fn main() { let x: (u8, u8) = (1, 2, 3); }", False), ("fn main() { let x: [u8; 2] = [1, 2, 3]; }", False),
+        ("fn main() { let x: u8 = true; }", False), ("fn main() { let x: Option<u8> = Some(true); }", False),
+        ("fn main() { let x: u8 = { let y: u8 = 1; y }; let z: u8 = y; }", False),
+    ]
+    for src, ok in cases:
+        got = drv.call("run", hx(src), hx(""), hx("mod witness { const A: u8 = 1; const B: u8 = 2; }" if "witness::" in src else ""), "0")
+        bad = (got != "ok") if ok else (not got.startswith("compile-err") or "Failed to compile to Simplicity" in got)
+        if bad:
+            return {"call": "front end on a small program", "input": {"program": src}, "op": ["run", hx(src), hx(""), hx(""), "0"],
+                    "expected": "ok" if ok else "compile-err from the front end", "observed": got}
+    return None
 
 
 @searcher("pattern/")
